@@ -98,7 +98,7 @@ var topKeywords = map[string]bool{"declare": true, "type": true, "func": true, "
 var subKeywords = map[string]bool{"requires": true, "ensures": true, "xensures": true, "invariant": true, "decreases": true,
 	"modifies": true, "let": true, "loop": true, "implements": true, "props": true, "pure": true, "nopanic": true, "inline": true,
 	"view": true, "modelfield": true, "guarded_by": true, "trusted": true, "safe": true, "opaque": true, "noverify": true, "immutable": true,
-	"mayblock": true, "terminates": true}
+	"mayblock": true, "terminates": true, "nilok": true, "noinv": true, "noxinv": true, "noframe": true, "constructor": true}
 
 var clauseHead = regexp.MustCompile(`^([a-z_]+)(\[[A-Za-z0-9, ]+\])?\s*(.*)$`)
 
